@@ -342,13 +342,49 @@ inductive MergeRes where
   | ok (p : Trie)
   | stale            -- "optimistic lock failure"; the parent is not touched
 
+/-! `orderChanges`: the order in which `mergeChanges` replays the child's changes — a change that replaces a node of
+    key K is applied before a change that (re)creates a node of key K (Kahn-style passes with a counter per key;
+    if a whole pass is blocked the rest is applied as given). -/
+
+def replCount (m : Map Bytes Nat) (k : Bytes) : Nat := (Map.get m k).getD 0
+
+/-- one pass over the pending changes: (applied in this pass, still blocked, counters) -/
+def orderPass (H : Bytes → Bytes) : List (Change Ref) → Map Bytes Nat → List (Change Ref) × List (Change Ref) × Map Bytes Nat
+  | [], m => ([], [], m)
+  | c :: cs, m =>
+    if replCount m (c.new.key H) > 0 then
+      let r := orderPass H cs m
+      (r.1, c :: r.2.1, r.2.2)
+    else
+      let m' := match c.old with
+        | some o => Map.put m (o.key H) (replCount m (o.key H) - 1)
+        | none => m
+      let r := orderPass H cs m'
+      (c :: r.1, r.2.1, r.2.2)
+
+def orderLoop (H : Bytes → Bytes) : Nat → List (Change Ref) → Map Bytes Nat → List (Change Ref)
+  | 0, pending, _ => pending
+  | fuel + 1, pending, m =>
+    if pending.isEmpty then []
+    else
+      let r := orderPass H pending m
+      if r.2.1.length = pending.length then r.1 ++ r.2.1
+      else r.1 ++ orderLoop H fuel r.2.1 r.2.2
+
+def orderChanges (H : Bytes → Bytes) (changes : List (Change Ref)) : List (Change Ref) :=
+  let counts := changes.foldl (fun m c =>
+    match c.old with
+    | some o => Map.put m (o.key H) (replCount m (o.key H) + 1)
+    | none => m) ([] : Map Bytes Nat)
+  orderLoop H (changes.length + 1) changes counts
+
 /-- `mergeChanges(newRoot, changes, deletes, startRoot)`; `newTree` is the content `newRoot` stands for -/
 def mergeChanges (H : Bytes → Bytes) (p : Trie) (newRoot : Bytes) (newTree : Node) (changes : List (Change Ref))
     (deletes : List Ref) (startRoot : Bytes) : MergeRes :=
   if p.root = newRoot then .ok p
   else if p.root ≠ startRoot then .stale
   else
-    let p1 := changes.foldl (fun t c => t.insertNode H c.old c.new) p
+    let p1 := (orderChanges H changes).foldl (fun t c => t.insertNode H c.old c.new) p
     let p2 := deletes.foldl (Trie.deleteNode H) p1
     .ok { p2 with root := newRoot, tree := newTree }
 
